@@ -78,6 +78,7 @@ class World:
         self.exit_hooks = []
         self.seq_horizon = None          # absolute virtual time or None
         self.sig_after_acquire = []      # (pid, sem): see _op
+        self.real_dups = []              # real fds dup'ed for virtual children
 
     @property
     def now(self):
@@ -107,7 +108,14 @@ def reset(sched=None, now=1000.0):
 
 def clear():
     global _world
-    _world = None
+    w, _world = _world, None
+    if w is not None:
+        for fd in w.real_dups:
+            try:
+                _real['close'](fd)
+            except OSError:
+                pass
+        del w.real_dups[:]
 
 
 class fresh:
@@ -463,7 +471,12 @@ def v_socketpair(*a, **kw):
 
 def v_dup(fd):
     if not is_vfd(fd) or _world is None:
-        return _real['dup'](fd)
+        nfd = _real['dup'](fd)
+        if _world is not None:
+            # e.g. an Arena's file handed to a virtual child: a real fd that
+            # nobody will close once the execution is over
+            _world.real_dups.append(nfd)
+        return nfd
     return _new_fd(_end(fd))
 
 
